@@ -209,7 +209,9 @@ func behavEnc(b Behav) string {
 	return f + "," + esc(b.Msg) + "," + esc(b.Out)
 }
 
-func modelQuery(c *Case, changes []string, fixed bool) string {
+func modelQuery(c *Case, changes []string, fixed bool) string { return modelQueryT(c, changes, fixed, c.Late) }
+
+func modelQueryT(c *Case, changes []string, fixed bool, late bool) string {
 	var cs, bs, sp []string
 	for _, ch := range changes {
 		cs = append(cs, esc(ch))
@@ -237,5 +239,9 @@ func modelQuery(c *Case, changes []string, fixed bool) string {
 	if c.NoAsk {
 		na = "1"
 	}
-	return "dialog\t" + fx + "\t" + na + "\t" + strings.Join(cs, "|") + "\t" + strings.Join(bs, "|") + "\t" + strings.Join(sp, "|")
+	lt := "0"
+	if late {
+		lt = "1"
+	}
+	return "dialog\t" + fx + "\t" + na + "\t" + lt + "\t" + strings.Join(cs, "|") + "\t" + strings.Join(bs, "|") + "\t" + strings.Join(sp, "|")
 }
